@@ -12,7 +12,7 @@ import (
 func init() {
 	register(&propInfo{
 		ID:          "C17",
-		Explanation: "Path analysis of the keepalive mechanism: (R17.1) every blocking read of the socket is preceded, in the same function, by renewing the read deadline from the configured timeout; (R17.2) both the pong handler and the ping handler installed on the socket signal peer activity to the connection loop with a non-blocking send (this is what also re-arms the loop's idle timer), and the loop's activity arm renews the read deadline; (R17.3) the ping sender is a goroutine that, in a loop paced by the configured ping interval, writes a ping under the write lock and stops on its stop signal; (R17.4) keepalive (handlers + ping sender) is installed in the loop's prologue and again after every socket swap; (R17.5) the read deadline is renewed only on evidence of inbound activity — never on writes or on every loop iteration — so a silent peer is noticed while the client keeps sending; (R17.6) the ping interval and timeout options reach the connection object. (R17.8) the renewal really sets the deadline whenever a timeout is configured; (R17.9) a write deadline put on the socket is lifted before the writer unlocks or returns. R17.3 also: every tick of the ping timer writes a ping; (R17.10) a pong-less ping handler is installed only on a side that sends pings.",
+		Explanation: "Path analysis of the keepalive mechanism: (R17.1) every blocking read of the socket is preceded, in the same function, by renewing the read deadline from the configured timeout; (R17.2) both the pong handler and the ping handler installed on the socket signal peer activity to the connection loop with a non-blocking send (this is what also re-arms the loop's idle timer), and the loop's activity arm renews the read deadline; (R17.3) the ping sender is a goroutine that, in a loop paced by the configured ping interval, writes a ping under the write lock and stops on its stop signal; (R17.4) keepalive (handlers + ping sender) is installed in the loop's prologue and again after every socket swap; (R17.5) the read deadline is renewed only on evidence of inbound activity — never on writes or on every loop iteration — so a silent peer is noticed while the client keeps sending; (R17.6) the ping interval and timeout options reach the connection object. (R17.8) the renewal really sets the deadline whenever a timeout is configured; (R17.9) a write deadline put on the socket is lifted before the writer unlocks or returns. R17.3 also: every tick of the ping timer writes a ping; (R17.10) a pong-less ping handler is installed only on a side that sends pings. (R17.11) the peer-activity channel is signalled only inside the pong/ping handlers; (R17.12) the client-side stream buffer always takes from its intake.",
 		NotDecided:  "Any time bound (how long detection takes, that ping interval < timeout/2 suffices), gorilla's delivery of control frames, timer arithmetic of the idle timer.",
 		Assumptions: []string{"gorilla/websocket invokes the registered ping/pong handlers from the reading goroutine when such control frames arrive", "websocket.PingMessage == 9"},
 		Run:         runC17,
@@ -27,6 +27,10 @@ func runC17(c *Ctx) {
 	c.renewalUnconditional("R17.8")
 	c.rule("R17.10", "a side that replaces gorilla's ping handler (which answers with a pong) by one that does not answer sends pings itself: the replacement is installed only when a ping interval is configured")
 	c.pingHandlerNeedsPinger("R17.10")
+	c.rule("R17.12", "a subscriber that stops reading never back-pressures the socket reader (frames behind the stalled stream — the peer's pings among them — must still be read): the client-side buffer always takes from its intake")
+	c.decouplingRule("R17.12")
+	c.rule("R17.11", "the dead-connection detectors are fed only by frames of the peer: the peer-activity channel is signalled only inside the pong/ping handlers")
+	c.activityOnlyFromPeer("R17.11")
 	c.ruleOpt("R17.9", "a write deadline put on the socket is lifted again before the writer returns (gorilla keeps it for every later frame)")
 	c.stickyWriteDeadline("R17.9")
 	c.rule("R17.2", "pong and ping handlers signal peer activity with a non-blocking send; the activity arm renews the read deadline")
@@ -546,5 +550,58 @@ func (c *Ctx) pingHandlerNeedsPinger(rule string) {
 	}
 	if n == 0 {
 		c.ok(rule, "ping handler", "-", "gorilla's default ping handler (answers with a pong) is in place")
+	}
+}
+
+// activityOnlyFromPeer: the peer-activity channel is signalled only by the handlers gorilla calls
+// when a control frame of the peer arrives (pong / ping handler). A token pushed by this side — after
+// its own ping went out, say — renews read deadline and idle timer from the client's own writes, which
+// succeed into the socket buffer long after the peer has gone: a silently dead link is never detected,
+// the loss path never runs, calls stay blocked and streams are never closed.
+func (c *Ctx) activityOnlyFromPeer(rule string) {
+	p, r := c.P, c.R
+	if r.FPongs == nil {
+		c.und(rule, "peer-activity channel", "-", "not resolved")
+		return
+	}
+	handlers := map[*ssa.Function]bool{}
+	for _, ci := range gorillaConnCalls(p) {
+		switch methodOf(ci) {
+		case "SetPongHandler", "SetPingHandler":
+			for _, h := range c.funcsOf(ci.Common().Args[1]) {
+				for _, g := range p.cone(h) {
+					handlers[g] = true
+				}
+			}
+		}
+	}
+	n := 0
+	for _, fn := range p.Funcs {
+		if pkgOf(fn) != p.Root.Pkg {
+			continue
+		}
+		allInstrsRaw(fn, func(in ssa.Instruction) {
+			hit := false
+			switch x := in.(type) {
+			case *ssa.Select:
+				for _, st := range x.States {
+					if st.Dir == types.SendOnly && c.fieldVal(st.Chan, r.FPongs) {
+						hit = true
+					}
+				}
+			case *ssa.Send:
+				hit = c.fieldVal(x.Chan, r.FPongs)
+			}
+			if !hit {
+				return
+			}
+			n++
+			construct := fmt.Sprintf("%s: signal on the peer-activity channel", fname(fn))
+			c.check(handlers[fn], rule, construct, c.ipos(in), "inside a pong/ping handler (a frame of the peer arrived)",
+				"peer activity is signalled from code that does not run because a frame of the peer arrived (e.g. after this side's own ping was written): the read deadline and the idle timer are then renewed by the client's own writes, so a link that died silently is never detected — calls stay blocked and streams are never closed")
+		})
+	}
+	if n == 0 {
+		c.und(rule, "signals on the peer-activity channel", "-", "none found")
 	}
 }
